@@ -169,7 +169,11 @@ func (client *Client) handle() {
 	defer func() {
 		client.log().Info("Closing down TCPCLv4")
 
-		client.reportChan <- cla.NewConvergencePeerDisappeared(client, client.peerNodeId)
+		// The reader of the report channel might be the one who closes this Client and waits for closeChanAck.
+		select {
+		case client.reportChan <- cla.NewConvergencePeerDisappeared(client, client.peerNodeId):
+		case <-client.closeChanSyn:
+		}
 
 		closeErrFuncs := []func() error{
 			client.transferManager.Close,
@@ -203,7 +207,12 @@ func (client *Client) handle() {
 		select {
 		case b := <-incomingBundles:
 			client.log().WithField("bundle", b).Info("Received Bundle")
-			client.reportChan <- cla.NewConvergenceReceivedBundle(client, client.nodeId, &b)
+			select {
+			case client.reportChan <- cla.NewConvergenceReceivedBundle(client, client.nodeId, &b):
+			case <-client.closeChanSyn:
+				client.log().Debug("Received close signal")
+				return
+			}
 
 		case <-client.closeChanSyn:
 			client.log().Debug("Received close signal")
